@@ -132,6 +132,23 @@ func c12R1(c *Ctx, r *Report) {
 			if miss := guardsMissing(fn, rf.Block(), []Guard{{Name: "binary.Read err == nil", Op: "eq", A: isValue(br), B: isNilConst, Holds: true}}); len(miss) > 0 {
 				problems = append(problems, "the body is read although reading the length prefix failed")
 			}
+			// once the prefix was consumed the body is consumed too: no return between the two leaves the
+			// payload in the stream (the next read on this connection would take payload octets for a prefix);
+			// the only accepted refusal is io.ErrShortBuffer for a caller-supplied buffer that is too small
+			errNil := Guard{Name: "binary.Read err == nil", Op: "eq", A: isValue(br), B: isNilConst, Holds: true}
+			okAll, blk := mustPassExit(fn, br.Block(), instrIndex(br), func(in ssa.Instruction) bool { return in == ssa.Instruction(rf) }, func(ret *ssa.Return) bool {
+				if len(guardsMissing(fn, ret.Block(), []Guard{errNil})) > 0 {
+					return false // the prefix could not be read
+				}
+				res := unspill(ret.Block(), ret)
+				if anyIn(sliceOf(res[len(res)-1]), isGlobal("ErrShortBuffer")) {
+					return false
+				}
+				return true
+			})
+			if !okAll {
+				problems = append(problems, fmt.Sprintf("%s: returns after the length prefix was read but before the announced octets were read: they stay in the stream and the next message on this connection is framed from the middle of this one", c.pos(blk.Instrs[len(blk.Instrs)-1].Pos())))
+			}
 		}
 		r.check(len(problems) == 0, "C12.R1.stream-read", name, c.pos(fn.Pos()), "uint16 big-endian length, then exactly that many octets", "%s", strings.Join(problems, "; "))
 	}
@@ -488,5 +505,13 @@ func c12R4(c *Ctx, r *Report) {
 			}
 		}
 		r.check(len(problems) == 0, "C12.R5.fresh-writer", name, c.pos(f.Pos()), "new(response) per call", "%s", strings.Join(problems, "; "))
+	}
+	// a TCP connection reuses its writer: per-request state is reset for every request
+	r.rule("C12.R5.writer-reset", 1, "the per-request TSIG state of a reused response writer is reset before the handler runs")
+	if status, chain, pos, ok := serverTsigState(c); !ok {
+		r.cerr("C12.R5.writer-reset", "Server.serveDNS", "function not found")
+	} else {
+		all := append(append([]string{}, status...), chain...)
+		r.check(len(all) == 0, "C12.R5.writer-reset", "Server.serveDNS", pos, "tsigStatus, tsigTimersOnly, tsigRequestMAC", "%s", strings.Join(all, "; "))
 	}
 }
